@@ -5,6 +5,7 @@ import NucsProofs.Propagators.CountEq
 import NucsProofs.Propagators.Counting
 import NucsProofs.Propagators.Dummy
 import NucsProofs.Propagators.Element
+import NucsProofs.Propagators.GccReg
 import NucsProofs.Propagators.Lex
 import NucsProofs.Propagators.MinMax
 import NucsProofs.Propagators.NoSubCycle
@@ -32,6 +33,7 @@ theorem C05_elementLiv : Sound .elementLiv := sound_elementLiv
 theorem C05_elementLic : Sound .elementLic := sound_elementLic
 theorem C05_exactlyEq : Sound .exactlyEq := sound_exactlyEq
 theorem C05_exactlyTrue : Sound .exactlyTrue := sound_exactlyTrue
+theorem C05_gcc : Sound .gcc := sound_gcc
 theorem C05_lexLeq : Sound .lexLeq := sound_lexLeq
 theorem C05_maxEq : Sound .maxEq := sound_maxEq
 theorem C05_maxLeq : Sound .maxLeq := sound_maxLeq
@@ -43,7 +45,7 @@ theorem C05_scc : Sound .scc := sound_scc
 
 /-- algorithms for which `Sound` is stated (Spec.lean) but not proved here: validated by the
     correspondence and the brute-force oracle only -/
-def C05_unproved : List Alg := [.gcc]
+def C05_unproved : List Alg := []
 
 /-- non-vacuity: a concrete in-contract, non-empty box on which the call prunes -/
 example : Contract .affineLeq [1, 1, -1, 0] [(2, 5), (2, 5), (0, 10)] ∧
